@@ -121,6 +121,14 @@ def unit_dfvc(tier, seed):
 
 UNITS['dfvc'] = unit_dfvc
 
+
+def unit_l2(tier, seed):
+    import unit_l2
+    return run_verus_unit('l2', None, builder=unit_l2.build, canary=False)
+
+
+UNITS['l2'] = unit_l2
+
 # property -> units that carry obligations tagged with it
 PROPERTY_UNITS = {}
 PROPERTY_UNITS['C03'] = ['frame']
